@@ -642,12 +642,12 @@ pub fn generate(tier: &str, seed: u64) -> Vec<Rec> {
             }
         }
         for k in 0..32 { if thorough || k % 4 == (op as usize) % 4 { pairs.push((1 << k, rng.next() as u32)); pairs.push((rng.next() as u32, 1 << k)); } }
-        for _ in 0..(if thorough { 60 } else { 14 }) { pairs.push((rng.next() as u32, rng.next() as u32)); }
+        for _ in 0..(if thorough { 150 } else { 40 }) { pairs.push((rng.next() as u32, rng.next() as u32)); }
         for (a, b) in pairs { out.push(Rec::new(15020 + op, vec![be(&mut rng), 8, sd()], vec![vec![a as i128, b as i128]])); }
     }
 
     // short random programs: 2-3 operations chained through re-preparation
-    for _ in 0..(if thorough { 120 } else { 40 }) {
+    for _ in 0..(if thorough { 400 } else { 100 }) {
         let n_in = 2 + rng.below(2) as usize;
         let inputs: Vec<i128> = (0..n_in).map(|_| word(&mut rng, 32)).collect();
         let steps = 2 + rng.below(2) as usize;
@@ -663,7 +663,7 @@ pub fn generate(tier: &str, seed: u64) -> Vec<Rec> {
     }
 
     // blind rotation / selection / retrieval / swap
-    for i in 0..(if thorough { 80 } else { 30 }) {
+    for i in 0..(if thorough { 200 } else { 60 }) {
         let mask = rng.range(0, 8);
         let rsh = rng.range(0, 32 - mask);
         let lsh = rng.range(0, 8 - mask);
@@ -671,7 +671,7 @@ pub fn generate(tier: &str, seed: u64) -> Vec<Rec> {
         out.push(Rec::new(15050, vec![be(&mut rng), 8, rng.below(2) as i128, rsh as i128, mask as i128, lsh as i128, via, sd()],
             vec![vec![word(&mut rng, 32)], vec![word(&mut rng, 32)]]));
     }
-    for i in 0..(if thorough { 60 } else { 24 }) {
+    for i in 0..(if thorough { 150 } else { 48 }) {
         let mask = rng.range(0, 4);
         let rsh = rng.range(0, 32 - mask);
         let slots = 1usize << mask;
@@ -682,7 +682,7 @@ pub fn generate(tier: &str, seed: u64) -> Vec<Rec> {
         let kw = (word(&mut rng, 32) & !(((1i128 << mask) - 1) << rsh)) | (idx << rsh);
         out.push(Rec::new(15051, vec![be(&mut rng), 8, rsh as i128, mask as i128, (i % 6 == 0) as i128, sd()], vec![vec![kw], keys, vals]));
     }
-    for i in 0..(if thorough { 50 } else { 18 }) {
+    for i in 0..(if thorough { 120 } else { 36 }) {
         let len = rng.range(1, if thorough { 25 } else { 11 }) as usize;
         let mask = (usize::BITS - (len - 1).leading_zeros()) as i64 + rng.range(0, 1);
         let rsh = rng.range(0, 32 - mask);
@@ -697,13 +697,13 @@ pub fn generate(tier: &str, seed: u64) -> Vec<Rec> {
         let kw = (word(&mut rng, 32) & !(((1i128 << bits) - 1) << off)) | (idx << off);
         out.push(Rec::new(15053, vec![be(&mut rng), 8, size.max(2) as i128, off as i128, (i % 6 == 1) as i128, sd()], vec![vec![kw], data]));
     }
-    for i in 0..(if thorough { 24 } else { 8 }) {
+    for i in 0..(if thorough { 64 } else { 16 }) {
         let bit = rng.below(32) as i128;
         out.push(Rec::new(15054, vec![be(&mut rng), 8, bit, (i % 4 == 0) as i128, sd()], vec![vec![word(&mut rng, 32), word(&mut rng, 32), word(&mut rng, 32)]]));
     }
 
     // circuit bootstrapping: both bit values, both routes, constant and exponent mode, every GGSW cell
-    for rep in 0..(if thorough { 6 } else { 2 }) {
+    for rep in 0..(if thorough { 8 } else { 3 }) {
         for route in [0i128, 1] { for msg in [0i128, 1] {
             out.push(Rec::new(15060, vec![if rep == 0 { 1 } else { 2 }, 8, route, msg, 1, 13, 2, 2, sd()], vec![]));
             for lgo in [0i128, 1, 3, 7] {
@@ -713,7 +713,7 @@ pub fn generate(tier: &str, seed: u64) -> Vec<Rec> {
         } }
         for msg in 0..4i128 {
             out.push(Rec::new(15060, vec![2, 8, 1, msg, 2, 13, 2, 2, sd()], vec![]));
-            out.push(Rec::new(15061, vec![2, 8, 1, msg, 2, [0i128, 2, 6][rep % 3], 13, 2, 2, sd()], vec![]));
+            out.push(Rec::new(15061, vec![2, 8, 1, msg, 2, [6i128, 0, 2, 4, 1, 5][rep % 6], 13, 2, 2, sd()], vec![]));
         }
     }
     out
